@@ -20,17 +20,18 @@ PROPS["C13"] = {
     "outside": ["which document results from a partial load (needs load)", "OnPartialLoad handling in load_with_options"],
 }
 PROPS["C14"] = {
-    "decided": "the stored checksum is compared on all 32 bits against the hash of the chunk: any single-bit flip in the checksum field or the magic bytes is rejected for every hash value; an unknown chunk type is rejected",
+    "decided": "the stored checksum is compared on all 32 bits against the hash of the chunk: any single-bit flip in the checksum field or the magic bytes is rejected for every hash value; an unknown chunk type is rejected; a compressed change chunk is valid only if the outer checksum equals the inner one AND the inner one matches the hash of the inflated change (Chunk::checksum_valid); a corrupted element count cannot size an allocation before the checksum is looked at",
     "outside": ["flips in length or data bytes: detection rests on SHA-256's first 32 bits changing (cryptographic assumption; SHA-256 is stubbed by an arbitrary hash)", "DEFLATE streams"],
 }
 PROPS["C15"] = {
-    "decided": "these decoders are total (Ok/Err, no panic, no out-of-bounds, no overflow, loops within the unwind bound) on every input of each fixed length within the bound: Bloom filter decode + query, LEB128 and parser combinators, chunk header, sync State::decode (inputs of 2-3 bytes) and the sync message flags section",
+    "decided": "these decoders are total (Ok/Err, no panic, no out-of-bounds, no overflow, loops within the unwind bound) on every input of each fixed length within the bound: Bloom filter decode + query, LEB128 and parser combinators, chunk header, sync State::decode (inputs of 2-3 bytes), the sync message flags section, Cursor::try_from(&str) (ASCII strings of 0..=2 bytes quick / ..=4 thorough, and a multi-byte first character), resolving an object id / cursor with ANY counter and actor-index hint against a real document's actor table (exid_to_opid, op_cursor_to_opid), hexane's varint codec, value unpackers (incl. length prefixes near u64::MAX) and the RLE validator followed by the unchecked decoder on every 2-5 byte slab of an integer column",
     "outside": ["load, load_incremental, Change::from_bytes, bundles, rescue, import_obj: document operations or behind a Kani internal compiler error",
-                "Cursor::try_from (bytes and strings), ObjId::try_from, ActorId / ChangeHash string parsing, Message::decode: no harness finishes (str::from_utf8 and TinyVec copies over symbolic input exceed 5 min / 45 GB under Kani); the panics of Cursor::try_from(\"\") and of ids with counter >= 2^32 seen natively (DESIGN.md section 7) are therefore NOT reported by this check",
+                "Cursor::try_from(&[u8]), ObjId::try_from(&[u8]), Message::decode: every rung exceeded 300-900 s under Kani even on a 0/1-byte input (the cost is the AutomergeError / ReadMessageError result types, not the input); ChangeHash / ActorId FromStr on their own; import_obj (its hex::decode(..).unwrap() on a bad actor is visible by reading, DESIGN.md section 7)",
+                "hexane String / Option<String> RLE slabs and the skipping read (nth): past 1800 s",
                 "inputs longer than the stated fixed lengths"],
 }
 PROPS["C17"] = {
-    "decided": "step budgets as unwinding assertions: over an n-byte input no loop of the LEB128 parsers, length_prefixed/apply_n with the element parsers used, State::decode or the Bloom probe loop iterates more than the stated bound (linear in n); take_n compares the length before slicing and allocates nothing",
+    "decided": "step budgets as unwinding assertions: over an n-byte input no loop of the LEB128 parsers, length_prefixed/apply_n with the element parsers used, State::decode or the Bloom probe loop iterates more than the stated bound (linear in n); take_n compares the length before slicing and allocates nothing; a count prefix of u64::MAX / 2^63 (concrete witnesses) sizes no allocation; the Bloom bit-array size demanded from the wire is ceil(entries*bits/8) exactly; a hexane length prefix near u64::MAX cannot wrap header+length into a small offset",
     "outside": ["ChangeCollector::try_new's guard and document loading", "memory consumed by decoded documents"],
 }
 PROPS["C18"] = {
@@ -38,16 +39,19 @@ PROPS["C18"] = {
     "outside": ["Change::try_from(&[u8]), From<ExpandedChange>, bundles, DEFLATE (Change::parse is behind a Kani internal compiler error)"],
 }
 PROPS["C19"]["decided"] = ("sync state (State::encode -> State::decode, 0 or 1 shared heads of any value), sync message flags and the Bloom filter "
-                           "wire form decode back to equal values; id arithmetic is invariant under actor renumbering (a renumbered id names the same actor bytes)")
-PROPS["C19"]["outside"] = ["ExId / Cursor byte and string encodings (ExId round trip ran out of memory at 45 GB, Cursor::try_from over 2-4 symbolic bytes exceeded 5 min under Kani)",
+                           "wire form decode back to equal values; id arithmetic is invariant under actor renumbering (a renumbered id names the same actor bytes); "
+                           "ExId::to_bytes and Cursor::to_bytes write exactly the documented framing (actor lengths on both sides of the 1/2-byte length prefix, counter/hint < 2^14); "
+                           "Display of a cursor keeps the '-' of MoveCursor::Before; exid_to_opid resolves an id through the hint or, when the hint is stale or out of range, "
+                           "through the actor lookup to the same actor, for ANY counter and hint")
+PROPS["C19"]["outside"] = ["the DEcoders ExId::try_from(&[u8]) / Cursor::try_from(&[u8]) (see C15) and therefore byte round trips as a whole; actor CONTENT beyond first/last byte",
                            "Message::encode / decode as a whole", "exid_to_opid / cursor resolution against a live document"]
 PROPS["C21"] = {
     "decided": "State::decode(State::encode(s)) keeps exactly shared_heads (0 or 1 heads of any value) and resets every session field for any prior session flags, so a restored state never carries in_flight or stale sent_hashes",
     "outside": ["the network, message loss, convergence (document operations)"],
 }
 PROPS["C22"] = {
-    "decided": "State::set_read_only transition table from any state of a fixed container shape with arbitrary flags; new_read_only; READ_ONLY / SYNC_RESET / SUPPORTS_SYNC_RESET flags survive encode/parse independently of each other and of legacy bytes",
-    "outside": ["that receive_sync_message skips applying changes when read-only (document operation)"],
+    "decided": "State::set_read_only transition table from any state of a fixed container shape with arbitrary flags; new_read_only; READ_ONLY / SYNC_RESET / SUPPORTS_SYNC_RESET flags survive encode/parse independently of each other and of legacy bytes; peer_supports_sync_reset / supports_v2_messages / send_doc look for exactly their capability over every capability list of length 0..=2",
+    "outside": ["that receive_sync_message skips applying changes when read-only, and the SYNC_RESET handling inside receive_sync_message_inner (document operations)"],
 }
 PROPS["C24"] = {
     "decided": "TextEncoding::width for code-point, UTF-8 and UTF-16 encodings equals the respective unit count, additive over concatenation",
@@ -62,9 +66,13 @@ PROPS["C27"] = {
     "outside": ["TxHook index bookkeeping in encoding units, update_object, update_spans, batch_create_object"],
 }
 PROPS["C37"] = {
-    "decided": "argument decoders of the public API (cursor / object id from strings and bytes) never panic; converting a decoded id with any u64 counter into an internal id returns a value or an error instead of panicking",
-    "outside": ["every call that takes a document"],
+    "decided": "resolving a caller-supplied object id or cursor (the first step of every read and edit call that takes one) never panics: Automerge::exid_to_opid / op_cursor_to_opid on a real document return Ok or InvalidObjId / InvalidCursor for ANY u64 counter, ANY actor-index hint and a known or unknown actor; Cursor::try_from(&str) never panics on the stated strings; querying a decoded Bloom filter never panics",
+    "outside": ["everything a call does after resolving its id (index / range checks, heads validation, marks): document operations", "hydrate::Value::apply_patches (sequence tree)"],
 }
+PROPS["C30"]["decided"] = ("with_new_actor keeps every id pointing at the same actor bytes after any insertion into the sorted actor table (root is a fixed point); "
+                           "exid_to_opid on a real document resolves an id to ITS actor's index whatever the hint says (stale, out of range) and rejects an id whose actor the replica "
+                           "does not know - never another actor's object - and a counter that cannot name an op; ExId::to_bytes framing")
+PROPS["C30"]["outside"] = ["get_obj_meta and everything after the id is resolved", "Automerge::insert_actor rewriting the columns", "ExId::try_from(&[u8])"]
 PROPS["C38"] = {
     "decided": "ChangeBatch::push rejects a second change with the same (actor, seq) and a different hash in every arrival order and accepts the same hash again as a no-op; has_actor_seq reflects exactly the queued pairs",
     "outside": ["Automerge::has_actor_seq, ChangeGraph::add_changes' assertion, load and sync paths"],
@@ -72,14 +80,13 @@ PROPS["C38"] = {
 
 # Properties with a text above but fewer than two calibrated quick harnesses are NOT claimed; the manifest carries these reasons.
 _NA = {
-    "C04": "ChangeGraph (update_heads / heads) keeps its nodes in hexane columns and hash maps keyed by 32-byte hashes; building even a 2-change graph needs Column pushes, which do not finish under Kani (3 pushes > 10 min); no harness calibrated",
-    "C05": "ChangeQueue / ChangeBatch are BTreeMap + HashMap structures over 32-byte hashes: the smallest harness (3 changes, unwind 34 for the hash loops) exceeded 15 min under Kani; not calibrated, not claimed",
-    "C06": "the only solver-reachable kernel is ChangeBatch::push (see C05: exceeds 15 min); everything else is a document operation",
+    "C04": "the only kernel that does not need column appends is the head set (BTreeSet<ChangeHash>): heads_are_current over heads {h1,h2} and a 0-3 element query did not finish in 900 s under Kani (BTreeSet insert/collect/== with 32-byte keys); transaction_args and add_changes are document operations",
+    "C05": "ChangeQueue / ChangeBatch are std HashSet / HashMap structures over 32-byte hashes: ChangeBatch::push twice (real Change values, per-loop unwind bounds) exceeded 900 s, and a bare HashSet<ChangeHash> with two inserts exceeded 300 s even with the hasher stubbed to a constant (hashbrown's SIMD group probing under CBMC); not claimed",
+    "C06": "the only kernel outside the document is ChangeBatch::push (see C05: std HashSet does not finish under CBMC); everything else is a document operation",
     "C24": "TextEncoding::width iterates str::chars over symbolic UTF-8: one symbolic char exceeded 5 min under Kani; the width index itself lives in the op store",
     "C25": "MarkStateMachine holds Arc/SmolStr/BTreeMap values: 3 symbolic events exceeded 6 min under Kani; calculate_marks needs a document",
-    "C27": "myers::diff recurses (conquer) and Kani's unwind bound also unwinds the recursion: a 2x2 input exceeded 5.5 min at unwind 5; TxHook bookkeeping needs a document",
-    "C37": "every public call takes a document except the id/cursor decoders, and those do not finish under Kani (Cursor::try_from over 2-4 symbolic bytes > 5 min, ExId round trip out of memory at 45 GB); a single Bloom harness is not a claim",
-    "C38": "ChangeBatch::push / has_actor_seq: same structures as C05, smallest harness exceeded 15 min",
+    "C27": "myers::diff on a 1x1 input over a two-letter alphabet exceeded 400 s under Kani even with conquer's recursion bounded separately (--unwindset on the function): the `(-d..=d).rev().step_by(2)` loops of find_middle_snake and the zip/take_while/count chains of common_prefix_len bit-blast 64-bit divisions per iteration; TxHook bookkeeping, update_object, update_spans and batch_create_object need a document",
+    "C38": "ChangeBatch::push / has_actor_seq: same std HashSet structures as C05 (two pushes > 900 s under CBMC); the other mechanisms are document operations",
 }
 for _k, _v in _NA.items():
     PROPS[_k]["na_reason"] = _v
